@@ -1,6 +1,8 @@
 //! Checks whose dependency cone is ruma-common + ruma-signatures: C01-C05, C10-C13.
 use vf_engine::Check;
 
+mod c01;
+mod c04;
 mod c10;
 mod c13;
 
@@ -9,6 +11,8 @@ fn main() {
     let id = args.first().cloned().unwrap_or_default();
     let mut ck = Check::from_env(&id, &args[1.min(args.len())..]);
     match id.as_str() {
+        "C01" => c01::run(&mut ck),
+        "C04" => c04::run(&mut ck),
         "C10" => c10::run(&mut ck),
         "C13" => c13::run(&mut ck),
         _ => {
